@@ -1,11 +1,12 @@
-//! C07 - subsetting preserves the metrics of retained glyphs: the hmtx compaction step.
+//! C07 - subsetting preserves the metrics of retained glyphs: the hmtx compaction step
+//! (and the composite test the glyf subsetter relies on).
 //!
 //! Only this kernel of the subsetter is within reach (through hook H3, which wraps the
 //! private `subset::create_hmtx_table` with a slice-backed glyph list): the end-to-end
 //! pipeline gave no answer in 40 min and `GlyfTable::subset` none in 10 min. Nothing
 //! about outlines, components, renumbering or CFF is decided here.
 //!
-//! @funcs subset::create_hmtx_table (hook H3 verif_create_hmtx_table), HmtxTable::read_dep, HmtxTable::metric, ReadArrayCow::read_item
+//! @funcs GlyfRecord::is_composite, GlyfRecord::number_of_contours, subset::create_hmtx_table (hook H3 verif_create_hmtx_table), HmtxTable::read_dep, HmtxTable::metric, ReadArrayCow::read_item
 //! @out outlines (contours, composite closure, component renumbering), CFF / CFF2 / Type1-to-CID conversion, subroutine retention, WOFF / WOFF2 sources, more than 4 source glyphs or 3 retained glyphs
 
 use crate::util::*;
@@ -49,3 +50,27 @@ hmtx_subset!(c07_hmtx_compaction_4g_2h, 4, 2);
 hmtx_subset!(c07_hmtx_compaction_4g_1h, 4, 1);
 // @bound source hmtx with 3 glyphs and numberOfHMetrics = 3 (no trailing side bearings); subset [0, a, b]
 hmtx_subset!(c07_hmtx_compaction_3g_3h, 3, 3);
+
+/// Composite detection used by the glyf subsetter to decide whether a record must be
+/// parsed for its components: any negative contour count is a composite glyph.
+// @bound every i16 numberOfContours of an un-parsed record; a parsed composite and a parsed empty glyph
+#[kani::proof]
+#[kani::unwind(6)]
+fn c07_composite_detection() {
+    use allsorts::tables::glyf::{BoundingBox, CompositeGlyph, GlyfRecord, Glyph};
+    let n: i16 = kani::any();
+    let data = [0u8; 4];
+    let rec = GlyfRecord::Present { number_of_contours: n, scope: ReadScope::new(&data) };
+    assert!(rec.is_composite() == (n < 0));
+    assert!(rec.number_of_contours() == n);
+    let comp = GlyfRecord::Parsed(Glyph::Composite(CompositeGlyph {
+        bounding_box: BoundingBox { x_min: 0, x_max: 0, y_min: 0, y_max: 0 },
+        glyphs: Vec::new(),
+        instructions: &[],
+        phantom_points: None,
+    }));
+    assert!(comp.is_composite());
+    assert!(!GlyfRecord::empty().is_composite());
+    kani::cover!(n == -2, "negative count other than -1");
+    std::mem::forget(comp);
+}
